@@ -13,6 +13,20 @@ TB = ("Trusted: Lean 4.33 kernel; axioms propext/Classical.choice/Quot.sound onl
       "gcc/glibc/ASan; the C harness's abstraction functions and the script generators.")
 
 CLAIMED = {
+    "C12": {
+        "design_ref": "DESIGN.md 4/C12",
+        "text": "Lean 4 theorems over a link-level model of dlist.c (both link fields, one update per C assignment; abstraction IsDL: "
+                "n-links lead from the head node through the reference sequence back to the head node, p-links through its mirror "
+                "image): per-operation specs for insert, erase, push/pop at both ends (NULL on empty), front, back, foreach in both "
+                "directions with stop value and with the visit function unlinking the visited element, find (first match in the "
+                "direction), clear, concat, swap (incl. empty lists), sort (ordered permutation), reverse (loop invariant of the inward "
+                "node-swap loop + adjacent-pair epilogue, termination), and run_refines over arbitrary operation lists on arbitrarily "
+                "many lists. Tied to /repo on every run by executing model and real code on the same scripts (closure of all reference "
+                "states in a small scope + seeded random histories) comparing forward walk, backward walk, size and results; an "
+                "independent reference-sequence oracle decides concrete violations.",
+        "note": TB + " sort is modelled on the sequence read from the links followed by a relink (its temporary heads live on the C stack).",
+        "technique": "Lean 4 proof (induction over operation lists, link-level refinement) + model/implementation correspondence check",
+    },
     "C13": {
         "design_ref": "DESIGN.md 4/C13",
         "text": "Lean 4 theorems over a link-level model of slist.c (one update per C assignment; abstraction IsSL: links form the "
